@@ -205,6 +205,10 @@ def check(run):
             ops.append({"op": "pub", "c": 9, "t": t, "p": "x%d" % pid, "q": pid % 2, "id": pid})
         ops.append({"op": "quiesce"})
         bscns.append({"nodes": [1], "ops": ops})
+    # a matching session must get every publish once, whatever the other sessions do: one subscriber stops reading for a whole burst
+    # that carries the log consumer over a truncation point
+    from checks import c02
+    bscns.append(c02.stalled_run(1650, prefill={"count": 2450, "consumed": 2445}))
     btpath, crashes = brokerlib.execute(run, bscns, "c01b", shards=12)
     if crashes:
         raise vlib.Inconclusive("broker driver died: %s" % crashes[0][2][-2000:])
@@ -239,7 +243,7 @@ def check(run):
         "samples": [scns[0]["ops"], scns[len(scns) // 2]["ops"], scns[-1], {"trace_excerpt": vlib.head_events(tpath, 5)}],
     }, ["filters with '#' in a non-final position or '+'/'#' inside a level are invalid in MQTT and excluded",
         "topic/filter strings are built by the harness by joining level sequences with '/'; the empty string (single empty level) is excluded",
-        "broker level: an even sample of the TLC-generated histories is replayed through two real sessions (on one node, or on two nodes with at-least-once gossip) with two publishes after every step; plus SUBSCRIBE / UNSUBSCRIBE packets carrying two or three filters (every ordered pair of seven short filters), six publishes after each; BrokerTrace requires one PUBLISH per matching active subscription and none otherwise"],
+        "broker level: an even sample of the TLC-generated histories is replayed through two real sessions (on one node, or on two nodes with at-least-once gossip) with two publishes after every step; plus SUBSCRIBE / UNSUBSCRIBE packets carrying two or three filters (every ordered pair of seven short filters), six publishes after each; BrokerTrace requires one PUBLISH per matching active subscription and none otherwise; plus one run in which one of two matching subscribers stops reading for a burst of 1650 on a log pre-filled to 2450"],
         violations=v.n_new)
     run.log("validated %d scenarios, %d rejected (%d known)" % (validated, len(rejected), v.n_known))
     return rc
